@@ -1,6 +1,7 @@
 import PhysisModel.Proofs.BinrwLemmas
 import PhysisModel.Generated.BinrwAux
 import PhysisModel.Model.Cmp
+import PhysisModel.Model.Tera
 /-!
 T4 for `src/cmp.rs` (C16): `RacialScalingParameters` (14 × f32, `#[br(little)]`) against
 `Cmp.readRow` (`Rd.u32s 14`).  Two steps as in `Proofs/BinrwTieIndex.lean`.
@@ -45,5 +46,107 @@ theorem readRow_eq_expected (b : Bytes) :
 theorem readRow_eq_generated (b : Bytes) :
     Cmp.readRow b = via rowOf (Layout.read .big BinrwAux.racialScalingParameters b) :=
   tie readRow_eq_expected racialScalingParameters_generated b
+
+/-! ### `src/tera.rs`: `TerrainHeader` with `count = plate_count` positions -/
+
+theorem rd_u16le : Rd.u16le = Reader.u16le := by
+  funext l; rcases l with _ | ⟨a, _ | ⟨b, r⟩⟩ <;> rfl
+
+namespace Expected
+def platePosition : Layout :=
+  .mk (some .little) .none [
+    .mk "x" none .none 0 (.prim .i16) 0 0,
+    .mk "y" none .none 0 (.prim .i16) 0 0] true
+def terrainHeader (pos : Layout) : Layout :=
+  .mk (some .little) .none [
+    .mk "version" none .none 0 (.prim .u32) 0 0,
+    .mk "plate_count" none .none 0 (.prim .u32) 0 0,
+    .mk "plate_size" none .none 0 (.prim .u32) 0 0,
+    .mk "clip_distance" none .none 0 (.prim .f32) 0 0,
+    .mk "unknown" none .none 0 (.prim .f32) 0 0,
+    .mk "positions" none .none 32 (.array (.field 1) (.struct pos)) 0 0] true
+end Expected
+
+theorem platePosition_generated :
+    BinrwAux.platePosition.normalizeAt .little = Expected.platePosition.normalizeAt .little := rfl
+theorem terrainHeader_generated :
+    BinrwAux.terrainHeader.normalizeAt .big = (Expected.terrainHeader BinrwAux.platePosition).normalizeAt .big := rfl
+
+def posOfV : Value → Option (UInt16 × UInt16)
+  | .struct [.w16 .i16 x, .w16 .i16 y] => some (x, y)
+  | _ => none
+
+def terrainOf : List Value → Option (List Tera.PlateModel)
+  | [.w32 .u32 _, .w32 .u32 _, .w32 .u32 plateSize, .w32 .f32 _, .w32 .f32 _, .list pos] =>
+    (projAll posOfV pos).map (Tera.platesFrom plateSize 0)
+  | _ => none
+
+theorem readPositions_eq (n : Nat) (l : Bytes) :
+    Tera.readPositions n l =
+      (repeatN (Kind.read .little [] (.struct Expected.platePosition)) n l).bind fun vs => projAll posOfV vs.1 := by
+  induction n generalizing l with
+  | zero => rfl
+  | succ n ih =>
+    binrw_norm [Expected.platePosition, Tera.readPositions, rd_u16le]
+    cases u16le l with
+    | none => rfl
+    | some x =>
+      simp only [Option.bind_some]
+      cases u16le x.2 with
+      | none => rfl
+      | some y =>
+        simp only [Option.bind_some, ih]
+        binrw_norm [Expected.platePosition]
+        cases repeatN _ n y.2 with
+        | none => rfl
+        | some vs =>
+          simp only [Option.bind_some, projAll, posOfV]
+
+theorem fromExisting_eq_expected (buffer : Bytes) :
+    Tera.fromExisting buffer =
+      (via terrainOf (Layout.read .big (Expected.terrainHeader Expected.platePosition) buffer)).map (·.1) := by
+  have hp := readPositions_eq
+  binrw_norm [Expected.platePosition] at hp
+  binrw_norm [Expected.terrainHeader, Expected.platePosition, Bool.false_and, Bool.false_eq_true, if_false,
+    terrainOf]
+  unfold Tera.fromExisting
+  rw [rd_u32le]
+  cases u32le buffer with
+  | none => rfl
+  | some a =>
+  simp only [Option.bind_some]
+  cases u32le a.2 with
+  | none => rfl
+  | some b =>
+  simp only [Option.bind_some]
+  cases u32le b.2 with
+  | none => rfl
+  | some c =>
+  simp only [Option.bind_some]
+  cases u32le c.2 with
+  | none => rfl
+  | some d =>
+  simp only [Option.bind_some]
+  cases u32le d.2 with
+  | none => rfl
+  | some e =>
+  simp only [Option.bind_some, hp, Rd.skip]
+  cases repeatN _ b.1.toNat (List.drop 32 e.2) with
+  | none => rfl
+  | some vs =>
+    simp only [Option.bind_some]
+    cases projAll posOfV vs.1 <;> rfl
+
+/-- the positions are read with `TerrainHeader`'s endianness (little) -/
+theorem terrainHeader_congr (e : Endian) {s1 s2 : Layout} (h : s1.normalizeAt .little = s2.normalizeAt .little) :
+    Layout.read e (Expected.terrainHeader s1) = Layout.read e (Expected.terrainHeader s2) := by
+  funext l
+  simp only [Expected.terrainHeader, Layout.read, Layout.readFields, Field.read, Kind.read, Option.getD,
+    Layout.read_congr .little h, Nat.zero_sub]
+
+theorem fromExisting_eq_generated (buffer : Bytes) :
+    Tera.fromExisting buffer = (via terrainOf (Layout.read .big BinrwAux.terrainHeader buffer)).map (·.1) := by
+  rw [Layout.read_congr _ terrainHeader_generated, terrainHeader_congr _ platePosition_generated]
+  exact fromExisting_eq_expected buffer
 
 end Physis.BinrwTie.Aux
